@@ -1,13 +1,116 @@
 (** Property C18 — directory diffs are exact and safely ordered.
     This file holds only the property theorems; each is closed by [exact] of a lemma
-    proved in [Util/DiffProofs.v] and followed by [Print Assumptions]. *)
+    proved in [Util/DiffProofs.v], [Util/DiffProofs2.v] or [Util/DiffProofs3.v] and followed by
+    [Print Assumptions]; the [Example]s show that the statements are not vacuous. *)
 From Coq Require Import List String Bool.
-From MV Require Import Base.Cmp Util.Diff Util.DiffProofs.
+From MV Require Import Base.Cmp Util.Diff Util.DiffProofs Util.DiffProofs2 Util.DiffProofs3.
 Import ListNotations.
 Local Open Scope string_scope.
+Local Open Scope list_scope.
 
 (** No difference is reported exactly when the two snapshots are equal. *)
 Theorem C18_compare_none_iff : forall a b,
   canone a = true -> canone b = true -> (is_empty (dirdiff a b) = true <-> a = b).
 Proof. exact is_empty_iff. Qed.
 Print Assumptions C18_compare_none_iff.
+
+(** Soundness and completeness of the listing: a path is reported iff the entries of the
+    two snapshots at that path differ (so no unchanged path is reported and no changed path
+    is missed); every reported node carries the old and the new entry of its path and the
+    status added / removed / modified that these determine; no path is reported twice. *)
+Theorem C18_reported_iff : forall a b, canone a = true -> canone b = true ->
+  (forall q, (exists n, In n (listing (dirdiff a b)) /\ npath n = q) <-> osub a q <> osub b q) /\
+  (forall n, In n (listing (dirdiff a b)) ->
+     nprev n = osub a (npath n) /\ ncurr n = osub b (npath n) /\
+     nstatus n = match osub a (npath n), osub b (npath n) with
+                 | None, _ => Added
+                 | Some _, None => Removed
+                 | Some _, Some _ => Modified
+                 end) /\
+  NoDup (map npath (listing (dirdiff a b))).
+Proof. exact reported_iff. Qed.
+Print Assumptions C18_reported_iff.
+
+(** Safe order: every reported node other than the root has its parent's own entry in the
+    listing; a removed node stands before that entry and an added node after it (positions
+    in [nodes()]).  Nothing is assumed about the kind of the parent's change, so this covers
+    file <-> directory replacements, whose entry is "modified". *)
+Theorem C18_order_safe : forall a b, canone a = true -> canone b = true ->
+  forall n k pp, In n (listing (dirdiff a b)) -> npath n = pp ++ [k] ->
+  exists j m, nth_error (listing (dirdiff a b)) j = Some m /\ npath m = pp /\
+    forall i, nth_error (listing (dirdiff a b)) i = Some n ->
+      (nstatus n = Removed -> i < j) /\ (nstatus n = Added -> j < i).
+Proof. exact order_safe. Qed.
+Print Assumptions C18_order_safe.
+
+(** [get] agrees with the listing: it returns the listed node with that path, and [None]
+    (status "unchanged") exactly for the paths at which the snapshots agree, absent paths
+    included. *)
+Theorem C18_get_agrees : forall a b, canone a = true -> canone b = true ->
+  forall q,
+    get (dirdiff a b) q = find (fun n => path_eqb (npath n) q) (listing (dirdiff a b)) /\
+    (get (dirdiff a b) q = None <-> osub a q = osub b q) /\
+    (forall n, get (dirdiff a b) q = Some n ->
+       In n (listing (dirdiff a b)) /\ npath n = q /\ nprev n = osub a q /\ ncurr n = osub b q).
+Proof. exact get_agrees. Qed.
+Print Assumptions C18_get_agrees.
+
+(** Consuming the listing in order, one shallow file-system step per node ([apply1]: unlink
+    a file or [rmdir] an *empty* directory; create a file, or [mkdir] an empty directory, at a
+    free location below an *existing* directory; replace a file or an empty directory; a step
+    whose precondition fails is refused), is never refused and turns the old snapshot into the
+    new one.  Hence every removal happens before its parent is removed or replaced, and every
+    addition after its parent exists. *)
+Theorem C18_script_correct : forall a b, canone a = true -> canone b = true ->
+  run_script (listing (dirdiff a b)) a = Some b.
+Proof. exact script_correct. Qed.
+Print Assumptions C18_script_correct.
+
+(** ** Non-vacuity: a pair with a removed directory, a file -> directory replacement,
+    an unchanged file and an added directory. *)
+
+Example ex_prev : ent :=
+  Some (D [("a", D [("x", Lf "sha256:00"); ("y", Lf "sha256:01")]);
+           ("b", Lf "sha256:00"); ("c", Lf "sha256:00")]).
+Example ex_curr : ent :=
+  Some (D [("b", D [("z", Lf "symlink:a")]); ("c", Lf "sha256:00");
+           ("d", D [("e", Lf "sha256:01")])]).
+
+Example ex_canonical : canone ex_prev = true /\ canone ex_curr = true.
+Proof. split; reflexivity. Qed.
+
+Example ex_not_empty : is_empty (dirdiff ex_prev ex_curr) = false /\
+                       is_empty (dirdiff ex_prev ex_prev) = true.
+Proof. split; reflexivity. Qed.
+
+(** removed children first, then the replaced file followed by what is new inside it, then
+    the root's own entry, then the added directory followed by its content; [c] is absent *)
+Example ex_listing :
+  map (fun n => (npath n, nstatus n)) (listing (dirdiff ex_prev ex_curr)) =
+  [(["a"; "x"], Removed); (["a"; "y"], Removed); (["a"], Removed);
+   (["b"], Modified); (["b"; "z"], Added);
+   ([], Modified);
+   (["d"], Added); (["d"; "e"], Added)].
+Proof. vm_compute. reflexivity. Qed.
+
+Example ex_entries :
+  option_map (fun n => (nprev n, ncurr n)) (get (dirdiff ex_prev ex_curr) ["b"]) =
+  Some (Some (Lf "sha256:00"), Some (D [("z", Lf "symlink:a")])).
+Proof. vm_compute. reflexivity. Qed.
+
+Example ex_get :
+  option_map npath (get (dirdiff ex_prev ex_curr) ["a"; "y"]) = Some ["a"; "y"] /\
+  get (dirdiff ex_prev ex_curr) ["c"] = None /\
+  get (dirdiff ex_prev ex_curr) ["a"; "zz"] = None /\
+  get (dirdiff ex_prev ex_curr) ["zz"; "a"] = None.
+Proof. vm_compute. repeat split; reflexivity. Qed.
+
+(** the consumer is discriminating: the same steps in reverse order are refused (the first
+    one would create [d/e] before [d] exists), and so is the listing with the parents moved
+    to the front *)
+Example ex_script :
+  run_script (listing (dirdiff ex_prev ex_curr)) ex_prev = Some ex_curr /\
+  run_script (rev (listing (dirdiff ex_prev ex_curr))) ex_prev = None /\
+  run_script (filter (fun n => Nat.leb (List.length (npath n)) 1) (listing (dirdiff ex_prev ex_curr)))
+             ex_prev = None.
+Proof. vm_compute. repeat split; reflexivity. Qed.
